@@ -296,6 +296,7 @@ func c09(c *Ctx) {
 		c09zones(c, fn)
 	}
 	c09validate(c)
+	c09hostapps(c)
 	if fn := c.Fn(resutilPkg, "", "CalculateMidResourceByPolicy"); fn != nil {
 		c09mid(c, fn, true)
 	}
@@ -821,5 +822,61 @@ func c09validate(c *Ctx) {
 			}
 		}
 		r.Check(n > 0 && !bad, "VALIDATE", fkey(fn)+"/rejects-negative/"+fld, c.Pos(fn.Pos()), "a negative "+fld+" is rejected", sprintf("a strategy with a negative %s can be reported valid (%d tests of the field recognised): the formulas multiply capacity by it, publishing a negative (or cap-less) amount", fld, n))
+	}
+}
+
+// c09hostapps: host applications above batch priority are charged as system usage, at node and at zone level.
+func c09hostapps(c *Ctx) {
+	r := c.R
+	r.Rule("FLOW(host applications): at node level and at NUMA level the system-usage argument of CalculateBatchResourceByPolicy derives from GetHostAppHPUsed(..) (through Add and, per zone, DivideResourceList; for the per-zone slices: every value stored into the slice the argument is read from)")
+	for _, name := range []string{"calculateOnNode", "calculateOnNUMALevel"} {
+		fn := c.Fn(batchPkg, "Plugin", name)
+		if fn == nil {
+			continue
+		}
+		n := 0
+		for _, cl := range an.Calls(fn, false) {
+			if an.ShortCallee(cl.Common()) != "CalculateBatchResourceByPolicy" || len(cl.Common().Args) < 5 {
+				continue
+			}
+			n++
+			arg := cl.Common().Args[4]
+			hasHost := func(v ssa.Value) bool {
+				for x := range backwardAll(v) {
+					if call, ok := x.(*ssa.Call); ok && an.ShortCallee(&call.Call) == "GetHostAppHPUsed" {
+						return true
+					}
+				}
+				return false
+			}
+			ok := hasHost(arg)
+			if !ok {
+				// read from a per-zone slice: look at what is stored into that slice
+				if ld, isL := arg.(*ssa.UnOp); isL {
+					if ia, isIA := ld.X.(*ssa.IndexAddr); isIA {
+						stores, all := 0, true
+						for _, b := range fn.Blocks {
+							for _, in := range b.Instrs {
+								st, isSt := in.(*ssa.Store)
+								if !isSt {
+									continue
+								}
+								if ia2, isIA2 := st.Addr.(*ssa.IndexAddr); isIA2 && ia2.X == ia.X {
+									stores++
+									if !hasHost(st.Val) {
+										all = false
+									}
+								}
+							}
+						}
+						ok = stores > 0 && all
+					}
+				}
+			}
+			r.Check(ok, "FLOW", fkey(fn)+"/system-usage-includes-host-apps", c.InstrPos(cl), "host applications are charged as system usage", "the system usage handed to the formula does not include the usage of host applications above batch priority ("+an.Path(arg)+"): raising that usage no longer lowers the published amount")
+		}
+		if n == 0 {
+			r.Unknown("FLOW", fkey(fn)+"/system-usage-includes-host-apps", c.Pos(fn.Pos()), "formula call not found")
+		}
 	}
 }
